@@ -14,7 +14,7 @@ FUNCTIONS = [
     "PrintrunWriter._update_param (first-occurrence rule)", "PrintrunWriter.get_parameter", "ParamsDict",
     "VALUE_PATTERN (real regex, applied to the report with sample numbers)",
 ]
-BOUNDS = ("Cell grid: 9 report templates of the four families (Marlin position with and without "
+BOUNDS = ("Cell grid: 9 report templates of the four families plus every order of the Marlin position fields with repeated letters, reversed temperature fields, Grbl status with FS first (thorough: 27 more templates; quick: 4 of them) (Marlin position with and without "
           "'Count', Marlin temperature with and without a leading 'ok' and with '@' fields, Grbl "
           "status with MPos / WPos + FS, Grbl probe) x {one report, two reports in a row, report "
           "after an unrelated one}. The report text handed to the writer is the template rendered "
@@ -88,6 +88,25 @@ TEMPLATES = {
     "grbl-status-wpos": ("<Run|WPos:{0},{1},{2}|FS:{3},{4}>", {"X": 0, "Y": 1, "Z": 2, "F": 3, "S": 4}),
     "grbl-probe": ("[PRB:{0},{1},{2}:1]", {"X": 0, "Y": 1, "Z": 2}),
 }
+def _permuted_templates():
+    """Marlin position / temperature reports with the fields in every order, and with a letter
+    repeated later in the line (the FIRST value must win)."""
+    import itertools
+    out = {}
+    letters = ["X", "Y", "Z", "E"]
+    for perm in itertools.permutations(range(4)):
+        name = "marlin-pos-order-" + "".join(letters[i] for i in perm)
+        text = " ".join(f"{letters[i]}:{{{k}}}" for k, i in enumerate(perm))
+        # repeat the first two letters at the end with other values
+        text += f" Count {letters[perm[0]]}:{{4}} {letters[perm[1]]}:{{5}}"
+        out[name] = (text, {letters[i]: k for k, i in enumerate(perm)})
+    out["marlin-temp-BT"] = ("B:{0} /{1} T:{2} /{3}", {"B": 0, "T": 2})
+    out["marlin-temp-ok-BT"] = ("ok B:{0} /{1} T:{2} /{3} @:64 B@:127", {"B": 0, "T": 2})
+    out["grbl-status-FS-first"] = ("<Hold:0|FS:{3},{4}|MPos:{0},{1},{2}|Ov:100,100,100>",
+                                   {"X": 0, "Y": 1, "Z": 2, "F": 3, "S": 4})
+    return out
+
+
 SAMPLES = ["101.25", "-102.5", "103.75", "104.125", "105.5", "-106.25", "107.0"]
 SAMPLES2 = ["-201.5", "202.25", "-203.125", "204.75", "-205.5", "206.25", "207.5"]   # second report
 
@@ -190,8 +209,16 @@ def _make_dispatch(kind):
 
 def cells(tier):
     out = []
+    extra = _permuted_templates()
+    TEMPLATES.update(extra)
     for name in TEMPLATES:
+        if name in extra and tier == "quick" and name not in (
+                "marlin-pos-order-ZYXE", "marlin-pos-order-EXYZ", "marlin-temp-ok-BT",
+                "grbl-status-FS-first"):
+            continue
         for scenario in ("once", "twice", "after-unrelated"):
+            if scenario != "once" and name in extra:
+                continue
             if tier == "quick" and scenario != "once" and name not in ("marlin-pos", "marlin-temp-ok",
                                                                        "grbl-status"):
                 continue
